@@ -132,6 +132,12 @@ macro_rules! run_chain {
                         init = vec![0.1; dim];
                     }
                     let id_new = catch(|| probe(&chain, &mut aux)).ok();
+                    // initialisation attempts that are rejected first (a zero gradient component at
+                    // the centre of the density), as the sampler's retry loop would make them
+                    for _ in 0..ju(case, "bad_inits", 0) {
+                        let centre = vec![0.0; dim];
+                        let _ = catch(|| chain.set_position(&centre));
+                    }
                     match catch(|| chain.set_position(&init)) {
                         Err(p) => json!({"id": case["id"], "schema": schema, "new_chain": "ok",
                                          "set_position": format!("panic: {p}")}),
@@ -140,6 +146,10 @@ macro_rules! run_chain {
                         Ok(Ok(())) => {
                             let id_init = catch(|| probe(&chain, &mut aux)).ok();
                             let mut draws = vec![];
+                            // draws whose statistics are never extracted (Chain::draw)
+                            for _ in 0..ju(case, "plain_draws", 0) {
+                                let _ = catch(|| chain.draw());
+                            }
                             for _ in 0..total {
                                 match catch(|| chain.expanded_draw()) {
                                     Err(p) => {
